@@ -720,20 +720,22 @@ func strRoundTrips(j *jobCtx) {
 		for t := 0; t < n; t++ {
 			m := newM()
 			steps := 1 + j.r.Intn(6)
-			for s := 0; s < steps; s++ {
-				k := keys[j.r.Intn(len(keys))]
-				if j.r.Intn(5) == 0 {
-					m.Remove(k)
-				} else {
-					m.Put(k, vals[(j.r.Intn(len(vals))+s)%len(vals)])
+			guard("json", kind, "Build", func() {
+				for s := 0; s < steps; s++ {
+					k := keys[j.r.Intn(len(keys))]
+					if j.r.Intn(5) == 0 {
+						m.Remove(k)
+					} else {
+						m.Put(k, vals[(j.r.Intn(len(vals))+s)%len(vals)])
+					}
 				}
-			}
-			if t == 0 { // the documented example: a value whose text equals a later key
-				m = newM()
-				m.Put("x", "a")
-				m.Put("b", "q")
-				m.Put("a", "z")
-			}
+				if t == 0 { // the documented example: a value whose text equals a later key
+					m = newM()
+					m.Put("x", "a")
+					m.Put("b", "q")
+					m.Put("a", "z")
+				}
+			})
 			e := Ev{"fam": "json", "kind": kind, "cfg": cfg, "op": "RoundTrip", "rs": 1, "timeout": false, "obsbad": false,
 				"panic": false, "pmsg": "", "out": 0, "odrain": []any{}, "fdrain": []any{}, "fdrain2": []any{}, "stable": true}
 			e["orig"], e["size"] = content(m), m.Size()
@@ -875,9 +877,11 @@ func structRoundTrips(j *jobCtx) {
 		for t := 0; t < 24; t++ {
 			c := b.mk()
 			n := 1 + t%5
-			for i := 0; i < n; i++ {
-				b.add(c, pool[(t+i*(1+t/6))%len(pool)])
-			}
+			guard("json", b.kind, "Build", func() {
+				for i := 0; i < n; i++ {
+					b.add(c, pool[(t+i*(1+t/6))%len(pool)])
+				}
+			})
 			e := Ev{"fam": "json", "kind": b.kind, "cfg": cfg, "op": "RoundTrip", "rs": 1, "timeout": false, "obsbad": false,
 				"panic": false, "pmsg": "", "out": 0, "stable": true}
 			orig := b.vals(c)
